@@ -185,7 +185,15 @@ struct Value {
                 char* val = strndup(&v[i], vallen);
                 *this = Value(val, vallen);
                 free(val);
-                if (!do_exec(fun)) {
+                bool known;
+                try {
+                    known = do_exec(fun);
+                } catch (const std::exception& ex) {
+                    // (the tf command reports these itself; in an inline expression nothing else would)
+                    fprintf(stderr, "error in %s(): %s\n", fun, ex.what());
+                    exit(1);
+                }
+                if (!known) {
                     fprintf(stderr, "unknown function %s: expression left as is\n", fun);
                     // the argument's value was assigned above; go back to the expression itself
                     type = T_STRING;
